@@ -89,6 +89,22 @@ def guarded(fn, budget, nbytes=0):
         signal.signal(signal.SIGVTALRM, old)
 
 
+def cpu_guarded(fn, nbytes):
+    """run fn under the CPU-time limit only (no line counting); returns True when the limit was hit"""
+    old = signal.signal(signal.SIGVTALRM, _on_cpu)
+    signal.setitimer(signal.ITIMER_VIRTUAL, cpu_limit(nbytes))
+    try:
+        fn()
+        return False
+    except CpuExceeded:
+        return True
+    except Exception:      # noqa: BLE001
+        return False
+    finally:
+        signal.setitimer(signal.ITIMER_VIRTUAL, 0)
+        signal.signal(signal.SIGVTALRM, old)
+
+
 _CLS = {}
 
 
@@ -245,10 +261,9 @@ def run_retention(name, hexbuf):
     for _ in range(40):
         b = _Buf(buf)
         refs.append(weakref.ref(b))
-        try:
-            fn(b)
-        except Exception:   # noqa: BLE001
-            pass
+        if cpu_guarded(lambda: fn(b), len(buf)):
+            return [("%s/cpu_time_exceeded" % name.split("/")[0], "%s: decoding %d bytes (%s%s) was still running after %.1f s of CPU time: does not terminate in proportional work"
+                     % (name, len(buf), buf[:40].hex(), "..." if len(buf) > 40 else "", cpu_limit(len(buf))))]
         del b
     gc.collect()
     alive = sum(1 for r in refs if r() is not None)
@@ -284,20 +299,30 @@ def run_growth(name, hexbuf):
     fn = decoders()[name]
     buf = bytes.fromhex(hexbuf)
 
+    class Hung(Exception):
+        pass
+
     def run(lo, hi):
         for i in range(lo, hi):
-            try:
-                fn(growth_variant(buf, i))
-            except Exception:   # noqa: BLE001
-                pass
-    run(0, GROWTH_WARMUP)
+            v_ = growth_variant(buf, i)
+            if cpu_guarded(lambda: fn(v_), len(buf)):
+                raise Hung(bytes(v_))
+    try:
+        run(0, GROWTH_WARMUP)
+    except Hung as h:
+        b_ = h.args[0]
+        return [("%s/cpu_time_exceeded" % name.split("/")[0], "%s: decoding %d bytes (%s%s) was still running after %.1f s of CPU time: does not terminate in proportional work"
+                 % (name, len(b_), b_[:40].hex(), "..." if len(b_) > 40 else "", cpu_limit(len(b_))))]
     gc.collect()
     was = tracemalloc.is_tracing()
     if not was:
         tracemalloc.start()
     try:
         s0 = tracemalloc.get_traced_memory()[0]
-        run(GROWTH_WARMUP, GROWTH_WARMUP + GROWTH_N)
+        try:
+            run(GROWTH_WARMUP, GROWTH_WARMUP + GROWTH_N)
+        except Hung:
+            return [("%s/cpu_time_exceeded" % name.split("/")[0], "%s: a variant of %s did not decode within the CPU limit" % (name, buf[:24].hex()))]
         gc.collect()
         s1 = tracemalloc.get_traced_memory()[0]
     finally:
